@@ -154,6 +154,9 @@ enum P {
     Forget(usize),
     With(usize, Vec<P>),
     WithReturningGuard(usize, usize),
+    /// with_local_recorder whose closure works on the *enclosing* guard list: it can end outer installations while it
+    /// runs and leave its own guards alive when it returns
+    WithShared(usize, Vec<P>),
     Emit(u8, bool, usize), // kind, describe, form
     Panic,
     Catch(Vec<P>),
@@ -187,6 +190,10 @@ fn gen_prog(r: &mut Rng, depth: u32, len: usize, nrec: usize, allow_forget: bool
                 }
                 P::Catch(body)
             }
+            19 if depth > 0 && allow_nonlifo => {
+                let l = 1 + r.usize(5);
+                P::WithShared(r.usize(nrec), gen_prog(r, depth - 1, l, nrec, allow_forget, allow_nonlifo))
+            }
             _ => P::Emit(r.below(3) as u8, false, r.usize(NFORMS)),
         });
     }
@@ -201,6 +208,7 @@ fn prog_hash(p: &[P]) -> u64 {
             P::DropGuard(a) => mix(h, 2 + (*a as u64 & 0xff) * 16),
             P::Forget(a) => mix(h, 3 + *a as u64 * 16),
             P::With(a, b) => mix(mix(h, 4 + *a as u64 * 16), prog_hash(b)),
+            P::WithShared(a, b) => mix(mix(h, 10 + *a as u64 * 16), prog_hash(b)),
             P::WithReturningGuard(a, b) => mix(h, 5 + *a as u64 * 16 + *b as u64 * 256),
             P::Emit(k, d, f) => mix(h, 6 + (*k as u64) * 16 + (*d as u64) * 64 + (*f as u64) * 128),
             P::Panic => mix(h, 8),
@@ -377,6 +385,19 @@ fn exec(p: &[P], st: &RefCell<St>, guards: &mut Guards) {
                         s.installs[i].ended = Ended::GuardDropped;
                     }
                 }
+                s.trace.push("}".into());
+                s.end(id, Ended::ClosureReturned);
+            }
+            P::WithShared(rec, body) => {
+                let r = st.borrow_mut().recs.get(*rec);
+                let id = st.borrow_mut().install(*rec);
+                {
+                    let mut s = st.borrow_mut();
+                    s.nontrivial = true;
+                    s.trace.push(format!("with r{} (#{}) sharing the enclosing guards {{", rec, id));
+                }
+                metrics::with_local_recorder(r, || exec(body, st, guards));
+                let mut s = st.borrow_mut();
                 s.trace.push("}".into());
                 s.end(id, Ended::ClosureReturned);
             }
